@@ -7,10 +7,9 @@ def gen_probe(srcdir):
     m = G.Module("g_probe", "cost probes")
     import os
     if os.environ.get("PROBE_SET") == "user":
-        shapes = [G.v5_publish(0, 1, 0, [(0x26, (1, 1))]), G.v5_publish(0, 1, 1, [(0x26, (1, 1))]), G.v5_codes("Suback", 1, [(0x26, (1, 1))]),
-                  G.v5_subscribe((1,), [(0x26, (1, 1))]), G.v5_subscribe((1,), [(0x0B, 1)]), G.v5_subscribe((1,), [(0x0B, 128)]),
-                  G.v5_connack([(0x26, (1, 1))]), G.v5_connect(0x02, 1, [(0x26, (1, 1))]), G.v5_ack("Puback", "long", [(0x26, (1, 1)), (0x26, (0, 2))], False),
-                  G.v5_unsubscribe((1,), [(0x26, (1, 1))])]
+        shapes = [G.v5_publish(0, 1, 0, [(0x26, (1, 1))]), G.v5_publish(0, 1, 1, [(0x26, (1, 2))]), G.v5_codes("Suback", 1, [(0x26, (1, 1))]),
+                  G.v5_subscribe((1,), [(0x26, (1, 1))]), G.v5_unsubscribe((1,), [(0x26, (1, 2))]), G.v5_codes("Unsuback", 1, [(0x26, (2, 1))]),
+                  G.v5_connect(0x04, 0, (), 0, 0, [(0x26, (1, 2))]), G.v5_connect(0x06, 1, (), 1, 1, [(0x26, (1, 2))])]
         for sh in shapes:
             fn, code, w, unwind, meta = G.emit_dec(sh)
             m.add(fn, code, w, unwind, meta=meta)
@@ -110,47 +109,94 @@ def one_per_type(shapes_list, pred=lambda sh: True):
     return out
 
 
-def bad_class_scenarios(m, shapes_list, prop, limit_per_shape=8):
-    """for every validator-decided region of every shape: the query in which exactly that call is in
-    its invalid class (all others valid)"""
-    for sh in shapes_list:
-        if sh.malformed_by_shape:
-            continue
-        n = 0
-        for kind, regs in (("utf8", sh.b.utf8), ("name", sh.b.names), ("filter", sh.b.filters)):
-            for i, _ in enumerate(regs):
-                if n >= limit_per_shape:
-                    break
-                # tool limitation (DESIGN section 7): when a v5 PUBLISH fails after its property list was
-                # built, CBMC's heap model reports a spurious dealloc-size mismatch (not reproducible natively)
-                if sh.fam == "v5" and sh.typ == "Publish" and not (kind == "utf8" and i == 0):
-                    continue
-                fn, code, w, unwind, meta = G.emit_dec(sh, prop=prop, bad=(kind, i))
-                m.add(fn, code, w, unwind, meta=meta)
-                n += 1
+def bad_specs(tier):
+    """(shape, kind, index): one query per text-bearing field role in which exactly that field is in
+    the invalid class of its validator.  The field is given length 3 (the stubs' marker), every other
+    field validated by the same function another length."""
+    S = []
+
+    def add(sh, kind, idx):
+        assert G.bad_ok(sh, (kind, idx)), (sh.name, kind, idx, sh.b.utf8, sh.b.rlen)
+        S.append((sh, kind, idx))
+    # v3 CONNECT: client id, will topic (utf8 + name), user name
+    add(G.v3_connect("V311", 0xC6, cid_len=3), "utf8", 0)
+    add(G.v3_connect("V311", 0xC6, wt_len=3), "utf8", 1)
+    add(G.v3_connect("V311", 0xC6, wt_len=3), "name", 0)
+    add(G.v3_connect("V310", 0xC6, user_len=3), "utf8", 2)
+    # v3 PUBLISH topic; SUBSCRIBE / UNSUBSCRIBE filters (first and second)
+    add(G.v3_publish(1, 3, 1), "utf8", 0)
+    add(G.v3_publish(1, 3, 1), "name", 0)
+    add(G.v3_subscribe((3, 1)), "utf8", 0)
+    add(G.v3_subscribe((1, 3)), "filter", 1)
+    add(G.v3_subscribe((3, 1)), "filter", 0)
+    add(G.v3_unsubscribe((1, 3)), "utf8", 1)
+    add(G.v3_unsubscribe((3, 1)), "filter", 0)
+    # v5 CONNECT: client id, auth method, will topic, will content type, will response topic, will payload, user name
+    add(G.v5_connect(0xC6, 3, [(0x15, 1)], 1, 1, [(0x03, 1), (0x08, 1)]), "utf8", 1)
+    add(G.v5_connect(0xC6, 1, [(0x15, 3)], 1, 1, [(0x03, 1), (0x08, 1)]), "utf8", 0)
+    add(G.v5_connect(0xC6, 1, [(0x15, 1)], 1, 1, [(0x03, 3), (0x08, 1)]), "utf8", 2)
+    add(G.v5_connect(0xC6, 1, [(0x15, 1)], 1, 1, [(0x03, 1), (0x08, 3)]), "utf8", 3)
+    add(G.v5_connect(0xC6, 1, [(0x15, 1)], 1, 1, [(0x03, 1), (0x08, 3)]), "name", 0)
+    add(G.v5_connect(0xC6, 1, [(0x15, 1)], 3, 1, [(0x03, 1), (0x08, 1)]), "utf8", 4)
+    add(G.v5_connect(0xC6, 1, [(0x15, 1)], 3, 1, [(0x03, 1), (0x08, 1)]), "name", 1)
+    add(G.v5_connect(0x86, 1, (), 1, 3, [(0x01, 1)], user_len=1), "utf8", 2)
+    add(G.v5_connect(0xC6, 1, (), 1, 1, (), user_len=3), "utf8", 2)
+    # v5 CONNACK string properties
+    for pid in (0x12, 0x1A, 0x1C, 0x1F, 0x15):
+        add(G.v5_connack([(pid, 3)]), "utf8", 0)
+    add(G.v5_connack([(0x26, (3, 1))]), "utf8", 0)
+    add(G.v5_connack([(0x26, (1, 3))]), "utf8", 1)
+    # v5 PUBLISH: topic, content type, response topic, payload with format indicator
+    add(G.v5_publish(1, 3, 1), "utf8", 0)
+    add(G.v5_publish(1, 3, 1), "name", 0)
+    add(G.v5_publish(0, 1, 1, [(0x03, 3)]), "utf8", 1)
+    add(G.v5_publish(0, 1, 1, [(0x08, 3)]), "utf8", 1)
+    add(G.v5_publish(0, 1, 1, [(0x08, 3)]), "name", 1)
+    add(G.v5_publish(0, 1, 3, [(0x01, 1)]), "utf8", 1)
+    # acks, subscribe family, disconnect, auth
+    add(G.v5_ack("Puback", "long", [(0x1F, 3)], None), "utf8", 0)
+    add(G.v5_ack("Pubrec", "long", [(0x26, (3, 1))], None), "utf8", 0)
+    add(G.v5_ack("Pubrel", "long", [(0x1F, 3)], None), "utf8", 0)
+    add(G.v5_ack("Pubcomp", "long", [(0x26, (1, 3))], None), "utf8", 1)
+    add(G.v5_subscribe((3,)), "utf8", 0)
+    add(G.v5_subscribe((3,)), "filter", 0)
+    add(G.v5_subscribe((1, 3)), "filter", 1)
+    add(G.v5_unsubscribe((3, 1)), "filter", 0)
+    add(G.v5_unsubscribe((1, 3)), "utf8", 1)
+    add(G.v5_codes("Suback", 1, [(0x1F, 3)]), "utf8", 0)
+    add(G.v5_codes("Unsuback", 1, [(0x1F, 3)]), "utf8", 0)
+    add(G.v5_disconnect("long", [(0x1F, 3)]), "utf8", 0)
+    add(G.v5_disconnect("long", [(0x1C, 3)]), "utf8", 0)
+    add(G.v5_auth("long", [(0x15, 3)]), "utf8", 0)
+    add(G.v5_auth("long", [(0x1F, 3)]), "utf8", 0)
+    return S
+
+
+def bad_class_scenarios(m, prop, tier, limit=None):
+    specs = bad_specs(tier)
+    if limit:
+        specs = specs[::max(1, len(specs) // limit)]
+    for sh, kind, idx in specs:
+        fn, code, w, unwind, meta = G.emit_dec(sh, prop=prop, bad=(kind, idx))
+        m.add(fn, code, w, unwind, stubs=G.stubs_for((kind, idx)), meta=meta)
 
 
 def string_shapes(tier):
-    """shapes that carry validated text, one per distinct field role (for C12 / C20 class queries)"""
-    S = [G.v3_connect("V311", 0xC6), G.v3_publish(1, 2, 1), G.v3_subscribe((2, 1)), G.v3_unsubscribe((1, 2)),
-         G.v5_connect(0xC6, 1, [(0x15, 1)], 1, 1, [(0x03, 1), (0x08, 1)]), G.v5_connack([(0x12, 1)]), G.v5_connack([(0x1A, 1)]),
-         G.v5_connack([(0x1C, 1)]), G.v5_connack([(0x1F, 2)]), G.v5_connack([(0x15, 1)]), G.v5_connack([(0x26, (1, 1))]),
-         G.v5_publish(1, 2, 1), G.v5_publish(0, 1, 1, [(0x03, 1)]), G.v5_publish(0, 1, 1, [(0x08, 2)]), G.v5_publish(0, 1, 2, [(0x01, 1)]),
-         G.v5_ack("Puback", "long", [(0x1F, 1)], None), G.v5_ack("Pubrec", "long", [(0x26, (1, 1))], None), G.v5_ack("Pubrel", "long", [(0x1F, 2)], None),
-         G.v5_ack("Pubcomp", "long", [(0x1F, 1)], None), G.v5_subscribe((2,)), G.v5_unsubscribe((1, 1)),
-         G.v5_disconnect("long", [(0x1F, 1)]), G.v5_disconnect("long", [(0x1C, 1)]), G.v5_auth("long", [(0x15, 1)]), G.v5_auth("long", [(0x1F, 1)])]
-    if tier == "thorough":
-        S += [G.v3_connect("V310", 0xC6, 2, 2, 1, 2, 1), G.v3_publish(2, 4, 0), G.v3_subscribe((3, 2, 1)),
-              G.v5_connect(0x86, 2, [(0x15, 2)], 2, 1, [(0x03, 2)]), G.v5_publish(2, 4, 4, [(0x01, 1)]),
-              G.v5_connack([(0x12, 4)]), G.v5_connack([(0x26, (2, 2))]), G.v5_auth("long", [(0x15, 4)])]
-    return S
+    """text-bearing shapes for the all-valid obligations (returned strings = validated bytes)"""
+    seen = set()
+    out = []
+    for sh, _, _ in bad_specs(tier):
+        if (sh.fam, sh.name) not in seen:
+            seen.add((sh.fam, sh.name))
+            out.append(sh)
+    return out
 
 
 def gen_c12(tier):
     def g(srcdir):
         m = G.Module("g_c12", "C12: every decoded packet satisfies the invariants of its types (invalid-class queries per text field + accepted-packet obligations)")
         ss = string_shapes(tier)
-        bad_class_scenarios(m, ss, "C12")
+        bad_class_scenarios(m, "C12", tier)
         # the all-valid queries of the same shapes carry the accepted-packet obligations
         for sh in ss:
             fn, code, w, unwind, meta = G.emit_dec(sh, prop="C12")
@@ -186,7 +232,7 @@ def gen_c20(tier):
             seen.add((sh.fam, sh.name))
             fn, code, w, unwind, meta = G.emit_dec(sh, prop="C20")
             m.add(fn, code, w, unwind, meta=meta)
-        bad_class_scenarios(m, string_shapes(tier) if tier == "thorough" else string_shapes(tier)[:12], "C20", 3)
+        bad_class_scenarios(m, "C20", tier, None if tier == "thorough" else 18)
         m.write(srcdir)
     return g
 
@@ -218,4 +264,63 @@ def gen_c02(tier):
     def g(srcdir):
         _enc_module("g_c02_v3", "C02: declared lengths = bytes written (v3)", SH.v3_shapes(tier), "C02", want_bytes=False).write(srcdir)
         _enc_module("g_c02_v5", "C02: declared lengths = bytes written (v5)", SH.v5_shapes(tier), "C02", want_bytes=False).write(srcdir)
+    return g
+
+
+def agree_shapes(tier):
+    v3 = SH.v3_shapes("quick")
+    v5 = SH.v5_shapes("quick")
+    pick = one_per_type(v3) + one_per_type(v5)
+    names = ["connect_v311_fc6_c1_w1_1_u1_p1", "connect_v311_f01_c1", "publish_q1_t1_p1", "publish_q2_t2_p2", "subscribe_2_1", "subscribe_none", "suback_2",
+             "pingreq_extra2", "connack_x21", "connack_x23", "connack_xraw00", "connack_x13_pdm1", "publish_q1_t2_p2", "publish_q0_t1_p1_x03l1", "puback_long_x1fl1",
+             "puback_medium", "pubrel_long", "disconnect_code", "disconnect_long_x11", "auth_long_x15l1", "subscribe_1_x0bv128", "suback_2", "unsuback_1",
+             "connect_fc6_c1_x11_15l1_w1_1_x18_08l1_u1_p1", "connect_f01_c1", "pingreq_extra1", "auth_long", "auth_code", "publish_q0_t1_p1_x08l1",
+             "connect_f06_c1_w1_1_x08l1"]
+    pick += [sh for sh in v3 + v5 if sh.name in names]
+    if tier == "thorough":
+        pick = v3 + [sh for sh in v5 if sh.total_len <= 16]
+    seen = set()
+    out = []
+    for sh in pick:
+        if (sh.fam, sh.name) not in seen:
+            seen.add((sh.fam, sh.name))
+            out.append(sh)
+    return out
+
+
+def gen_c06(tier):
+    def g(srcdir):
+        m = G.Module("g_c06", "C06/C08: blocking, async and strict decoders agree on frame ++ tail")
+        for sh in agree_shapes(tier):
+            fn, code, w, unwind, meta = G.emit_agree(sh)
+            m.add(fn, code, w, unwind, meta=meta)
+        m.write(srcdir, chunk=8)
+    return g
+
+
+def gen_c07(tier):
+    def g(srcdir):
+        m = G.Module("g_c07", "C07: every strict prefix of a valid encoding is incomplete; C08 tail handling via g_c06")
+        lim = (lambda sh: 10 if sh.fam == "v5" else 14) if tier == "quick" else (lambda sh: 14 if sh.fam == "v5" else 20)
+        shapes_list = [sh for sh in agree_shapes(tier) if not sh.malformed_by_shape and sh.total_len <= lim(sh)]
+        for sh in shapes_list:
+            fn, code, w, unwind, meta = G.emit_prefix(sh)
+            m.add(fn, code, w, unwind, meta=meta)
+        m.write(srcdir, chunk=6)
+    return g
+
+
+def gen_c11(tier):
+    def g(srcdir):
+        m = G.Module("g_c11", "C11: accepted input re-encodes (body level) to at most the consumed bytes, canonical frames to themselves")
+        v3 = SH.v3_shapes("quick")
+        v5 = SH.v5_shapes("quick")
+        pick = [sh for sh in v3 + v5 if not sh.malformed_by_shape and "(p)" in sh.variant
+                and sh.fam + sh.typ not in ("v3Puback", "v3Pubrec", "v3Pubrel", "v3Pubcomp", "v3Unsuback", "v3Connack")]
+        if tier == "quick":
+            pick = [sh for i, sh in enumerate(pick) if i % 2 == 0 or not sh.canonical]
+        for sh in pick:
+            fn, code, w, unwind, meta = G.emit_reenc(sh)
+            m.add(fn, code, w, unwind, meta=meta)
+        m.write(srcdir)
     return g
